@@ -352,7 +352,13 @@ def r_snippet_units(r, prog):
             if rv['k'] == 'bin' and rv['op'] in ('Eq', 'Ne') and ('9' in (vexpr(f, rv['a']), vexpr(f, rv['b']))):
                 tab_tests += 1
     tab_len = [c for f in ghs for c in f.calls() if c.name() == 'len' and 'EXPANDED_TAB' in vexpr(f, c.args[0]) and not f.blocks[c.bb].get('cleanup')]
-    if tab_tests >= 2 and len(tab_len) >= 2:
+    # the displayed line expands every tab to the same constant the underline arithmetic uses (a tab stop model in one and a fixed width in the
+    # other drift apart after the first tab that is not at the start of the line)
+    rp = [c for c in gs.calls() if c.name() == 'replace' and not gs.blocks[c.bb].get('cleanup') and len(c.args) == 3]
+    shown_ok = len(rp) == 1 and vexpr(gs, rp[0].args[1]) == '9' and 'EXPANDED_TAB' in vexpr(gs, rp[0].args[2])
+    if not shown_ok:
+        r.finding('tab-expansion-of-shown-line', rp[0].span if rp else gs.span, 'get_snippet shows the line as %s: the underline counts EXPANDED_TAB per tab, so the line must be shown with every tab replaced by EXPANDED_TAB' % ([vexpr(gs, a)[:40] for c in rp for a in c.args[1:]] or 'something other than line.replace(tab, EXPANDED_TAB)'))
+    elif tab_tests >= 2 and len(tab_len) >= 2:
         r.ok('get_highlight widens the gap before and the underline itself by the expansion of every tab (%d tab tests, %d uses of the expansion width)' % (tab_tests, len(tab_len)))
     else:
         r.finding('tabs-not-accounted', gh.span, 'get_highlight tests for a tab %d time(s) and uses the width of its expansion %d time(s): with tabs before or inside the span the underline no longer sits under the spanned text' % (tab_tests, len(tab_len)))
